@@ -25,6 +25,10 @@ WORKSPACE
   (about 25 s).  On the UNCHANGED tree 347 tests pass and 12 fail (numpy-2 incompatibilities in the tests);
   that is the baseline.  Record the set of failing test ids BEFORE your change (e.g. with `-rf`), and make sure that
   after your change exactly the same tests pass (no new failure, no new error).
+* IMPORTANT: pyUSID is also installed (editable) from another checkout, and a script started as `_seed/demo.py` gets
+  `_seed/` - not the worktree root - on sys.path.  demo.py must therefore begin with
+  `import sys, os; sys.path.insert(0, os.path.dirname(os.path.dirname(os.path.abspath(__file__))))` and should print
+  `pyUSID.__file__` so that you can see that YOUR worktree's code is the one being exercised.
 * Useful facts: USID files for a demonstration are best built with raw h5py
   (main dataset with attrs quantity/units and four object-reference attrs Position_Indices, Position_Values,
   Spectroscopic_Indices, Spectroscopic_Values pointing at 2-D ancillary datasets that carry string-array attrs
